@@ -159,6 +159,13 @@ def urlH : Handler := fun inp impl => do
     let sBody := upBlen = (body.length : Int) && upBsha = sentSha
     let spec := implHits == 1 && upMethod = method && sPath && sQuery && sHost && sHdr && sBody
     let stripApplies := strip ≠ [] && strip.isPrefixOf path
+    -- the cut of the escaped path as the translator regenerated it from the current source (`XEscapedLen`, proved
+    -- equal to `dropEscaped` in Props/C07Xlate.lean), run on this case: what it leaves must be what the model leaves —
+    -- and the model's request-target is compared with what the upstream received
+    let xlOK := !stripApplies || !Fabio.Generated.C07.XEscapedLen.translated ||
+      (match Fabio.Generated.C07.XEscapedLen.run { p0 := u.escapedPath, p1 := (strip.length : Int) } with
+       | .ok (r, _) => 0 ≤ r && u.escapedPath.drop r.toNat == dropEscaped strip.length u.escapedPath
+       | .panic _ => false)
     let base := if stripApplies then (if prepend ≠ [] then "strip+prepend" else "strip")
                 else if prepend ≠ [] then (if strip ≠ [] then "nostrip+prepend" else "prepend")
                 else if strip ≠ [] then "nostrip" else "plain"
@@ -172,7 +179,8 @@ def urlH : Handler := fun inp impl => do
            ++ (if isWS && headerGet hdrs "User-Agent" = "" then "+noua" else "")
            ++ (if cfgOn cfg || optBool inp "gzip" then "+cfg" else "")
     let nontrivial := stripApplies || prepend ≠ [] || hostOpt ≠ "" || tq ≠ [] || rawPath ≠ []
-    return ({ model := m, agree := m == canonImpl, spec := spec, nontrivial := nontrivial, tag := tag } : Verdict).toJson
+    return ({ model := m, agree := m == canonImpl && xlOK, spec := spec, nontrivial := nontrivial,
+              tag := tag ++ (if xlOK then "" else "/xlate-differs") } : Verdict).toJson
 
 /-! ### c07.body -/
 
@@ -503,32 +511,7 @@ def serveH : Handler := fun inp impl => do
               nontrivial := decoded.length > 1 || gated || out.cls != "forward",
               tag := tag ++ (if parseOK then "" else "/target-url-parse") } : Verdict).toJson
 
-/-! ### c07.esclen: `escapedLen` — real, translated, model -/
-
-def escLenH : Handler := fun inp impl => do
-  let s ← bytes inp "s"
-  let n ← int inp "n"
-  let ci := if isPanic impl then Json.mkObj [("panic", true)] else impl
-  -- the function as the translator regenerated it from the current source
-  let x : Json := match Fabio.Generated.C07.XEscapedLen.run { p0 := s, p1 := n } with
-    | .ok (r, _) => Json.mkObj [("r", r)]
-    | .panic _ => Json.mkObj [("panic", true)]
-  -- the model: what `ServeHTTP` keeps of the escaped path is `dropEscaped n s`
-  let kept := dropEscaped n.toNat s
-  let m : Json := Json.mkObj [("r", ((s.length - kept.length : Nat) : Int))]
-  let r := (impl.getObjValAs? Int "r").toOption.getD (-1)
-  -- the sentence behind it: the cut is inside the string, the prefix cut off stands for exactly `n` decoded bytes
-  -- (all of them when there are fewer), and it never ends inside an escape that is complete
-  let pre := s.take r.toNat
-  let spec := !isPanic impl && 0 ≤ r && r ≤ s.length &&
-    decodedCount pre == min n.toNat (decodedCount s) &&
-    (r.toNat == s.length || decodedCount (s.take (r.toNat + 1)) == decodedCount pre + 1)
-  let tag := if n ≤ 0 then "count-zero" else if n.toNat ≥ decodedCount s then "count-beyond"
-             else if pre.contains PCT then "cut-escaped" else "cut-plain"
-  return ({ model := m, agree := m == ci && x == ci, spec := spec, nontrivial := pre.contains PCT || n.toNat ≥ decodedCount s,
-            tag := tag ++ (if x == ci then "" else "/xlate-differs") } : Verdict).toJson
-
 def streams : List (String × Handler) :=
   [("c07.url", urlH), ("c07.body", bodyH), ("c07.noroute", norouteH), ("c07.escape", escapeH),
-   ("c07.serve", serveH), ("c07.esclen", escLenH)]
+   ("c07.serve", serveH)]
 end Fabio.Driver.C07
